@@ -7,6 +7,8 @@
 import NutsModel.C20.Strict
 import NutsModel.Facts.C20
 import NutsProofs.Lemmas.C20
+import NutsModel.C20.Outbound
+import NutsProofs.Lemmas.C20b
 
 namespace Nuts.C20.Props
 open Nuts Nuts.C18 Nuts.C20
@@ -350,5 +352,79 @@ theorem refusals_independent (c c' : Config) (hs : c.strict = c'.strict) :
   · intro h1 h2 h3; simp [vdrConfigure, hs, h1, h2, h3]
   · intro h1 h2; simp [networkConfigure, hs, h1, h2]
   · intro h; simp [authConfigure, hs, h]
+
+/-! ### Deepening round 2026-09-28 — the response cap of http/client (byte level; model NutsModel/C20/Outbound.lean) -/
+
+/-- the cap, the reader limit and the size comparison are REGENERATED as Lean definitions from `limitedReadAll`; `Do`
+    reads the final body through it and hands out the bytes read -/
+theorem fact_response_cap :
+    Facts.C20.maxResponseSize = 1048576 ∧ Facts.C20.responseReadLimit = Facts.C20.maxResponseSize + 1 ∧
+    (∀ n, Facts.C20.responseTooLarge n = decide (n > Facts.C20.maxResponseSize)) ∧
+    Facts.C20.limitedReadAllShape =
+      ["result, err := io.ReadAll(io.LimitReader(reader, DefaultMaxHttpResponseSize+1))", "if len(result) > DefaultMaxHttpResponseSize {",
+       "return nil, fmt.Errorf(\"data to read exceeds max. safety limit of %d bytes\", DefaultMaxHttpResponseSize)", "}", "return result, err"] ∧
+    Facts.C20.clientDoShape =
+      ["if StrictMode && req.URL.Scheme != \"https\" {", "return nil, errors.New(\"strictmode is enabled, but request is not over HTTPS\")", "}",
+       "req.Header.Set(\"User-Agent\", core.UserAgent())", "result, err := s.client.Do(req)", "if err != nil {", "return nil, err", "}",
+       "if result.Body != nil {", "body, err := limitedReadAll(result.Body)", "if err != nil {", "return nil, err", "}",
+       "result.Body = io.NopCloser(bytes.NewReader(body))", "}", "return result, nil"] :=
+  ⟨by decide, rfl, fun _ => rfl, by decide, by decide⟩
+
+theorem facts_cap_params : Facts.C20.responseReadLimit = 1048576 + 1 ∧ Facts.C20.responseTooLarge = fun n => decide (n > 1048576) :=
+  ⟨by decide, by funext n; simp [Facts.C20.responseTooLarge, Facts.C20.maxResponseSize]⟩
+
+/-- **response_cap_exact.** `limitedReadAll` with the regenerated cap / limit / comparison, for EVERY body the server sends:
+    a body of at most 1 MiB is handed out complete, a longer one is an error — never a silently truncated body -/
+theorem response_cap_exact (wire : Bytes) :
+    limitedReadAll Facts.C20.responseReadLimit Facts.C20.responseTooLarge wire =
+      if wire.length ≤ 1048576 then .ok wire else .err "http:toolarge" := by
+  rw [facts_cap_params.1, facts_cap_params.2]; exact limitedReadAll_exact 1048576 wire
+
+theorem response_never_truncated (wire r : Bytes)
+    (h : limitedReadAll Facts.C20.responseReadLimit Facts.C20.responseTooLarge wire = .ok r) : r = wire ∧ r.length ≤ 1048576 := by
+  rw [response_cap_exact] at h
+  by_cases hl : wire.length ≤ 1048576
+  · simp [hl] at h; subst h; exact ⟨rfl, hl⟩
+  · simp [hl] at h
+
+example : limitedReadAll Facts.C20.responseReadLimit Facts.C20.responseTooLarge [1, 2, 3] = .ok [1, 2, 3] := by
+  rw [response_cap_exact]; rfl
+
+/-- why the reader limit must be cap + 1: with `LimitReader(reader, cap)` a body one byte over the cap would be handed
+    out truncated and WITHOUT an error (witness with cap = 2) -/
+theorem reader_limit_witness :
+    limitedReadAll 2 (fun n => decide (n > 2)) [1, 2, 3] = .ok [1, 2] ∧
+    limitedReadAll (2 + 1) (fun n => decide (n > 2)) [1, 2, 3] = .err "http:toolarge" := by decide
+
+/-- **do_bytes_refines.** The byte-level `Do` (regenerated cap) refines C18's abstract `strictDo`: same requests, and the
+    outcome is the abstract outcome where "body above 1 MiB" is C18's `Body.big` — for every policy, mode, server and request -/
+theorem do_bytes_refines (pol : Policy) (strict : Bool) (srv : Nat → Req → Option (Resp × Bytes)) (req : Req) :
+    strictDo pol strict (absSrv 1048576 srv) req =
+      ((strictDoBytes pol strict Facts.C20.responseReadLimit Facts.C20.responseTooLarge srv req).1,
+       absRes 1048576 (strictDoBytes pol strict Facts.C20.responseReadLimit Facts.C20.responseTooLarge srv req).2) := by
+  rw [facts_cap_params.1, facts_cap_params.2]; exact strictDoBytes_refines 1048576 pol strict srv req
+
+/-- **do_body_bounded.** Whatever the servers answer, in either mode: a response `Do` returns carries at most 1 MiB and
+    exactly the bytes the answering server sent -/
+theorem do_body_bounded (pol : Policy) (strict : Bool) (srv : Nat → Req → Option (Resp × Bytes)) (req : Req)
+    (reqs : List Req) (resp : Resp) (body : Bytes)
+    (h : strictDoBytes pol strict Facts.C20.responseReadLimit Facts.C20.responseTooLarge srv req = (reqs, .ok (resp, body))) :
+    body.length ≤ 1048576 ∧ clientLoopB pol strict srv req (pol.maxRedirects + 2) [] req = (reqs, .ok (resp, body)) := by
+  rw [facts_cap_params.1, facts_cap_params.2] at h; exact strictDoBytes_ok 1048576 pol strict srv req reqs resp body h
+
+/-- **outbound_https_only_bytes.** `outbound_https_only` carried down the refinement: the byte-level strict client makes
+    https requests only -/
+theorem outbound_https_only_bytes (srv : Nat → Req → Option (Resp × Bytes)) (first : Req) :
+    ∀ r ∈ (strictDoBytes (clientPolicy true 10) true Facts.C20.responseReadLimit Facts.C20.responseTooLarge srv first).1,
+      r.scheme = sHttps := by
+  have h := do_bytes_refines (clientPolicy true 10) true srv first
+  have h1 := congrArg Prod.fst h
+  simp only at h1
+  rw [← h1]
+  exact outbound_https_aux (absSrv 1048576 srv) first
+
+example : (strictDoBytes (clientPolicy true 10) true Facts.C20.responseReadLimit Facts.C20.responseTooLarge
+    (fun _ _ => some ({ status := 200 }, [1, 2, 3])) { scheme := sHttps, host := [110, 108], path := [47] }).2 =
+      .ok ({ status := 200 }, [1, 2, 3]) := by decide
 
 end Nuts.C20.Props
